@@ -17,7 +17,11 @@ static bool GOAL_SAT(Motion m, double *d) { __CPROVER_assert(m != NIL && m < NM,
 static void ADD_STARTS(void) { starts_added = 1; if (nondet_bool()) pq_empty = 0; }
 static bool PQ_EMPTY(void) { return pq_empty; }
 static bool PTC(void) { return ++ptc_calls > 2 || nondet_bool(); }
+#ifdef PROPAGATE_NEVER_FAILS      /* geometric::PDST::propagateFrom always returns a motion */
+static Motion PROPAGATE(void) { __CPROVER_assume(next_m < NM); return next_m++; }
+#else
 static Motion PROPAGATE(void) { if (next_m >= NM || nondet_bool()) return NIL; return next_m++; }
+#endif
 static void ADD_SOLUTION(Motion m, bool approx, double diff) { added++; added_m = m; added_approx = approx; added_dist = diff; }
 static int STATUS2(bool has, bool approx) { return has ? (approx ? ST_APPROX : ST_EXACT) : ST_TIMEOUT; }
 
